@@ -220,6 +220,27 @@ def task_parse(prefix, encoded, maxlen, shard):
     return acc.result()
 
 
+NFKC_UNSTABLE = ["\uff45", "\ufb01", "e\u0301", "\u212b", "\xaa", "\u2460"]   # characters whose NFKC form differs but holds no delimiter
+
+
+def task_nfkc_unstable():
+    """Authorities holding such a character next to the authority's own '@' and ':' (userinfo, password, port): the NFKC delimiter
+    screen must only react to delimiters that normalisation *introduces*."""
+    acc = Acc(ID, impl.backend)
+    states = set()
+    for c in NFKC_UNSTABLE:
+        for auth in (c + ".com", c + ".com:81", "u@" + c + ".com", "u:p@" + c + ".com:81", c + "@h.com", "u:" + c + "@h.com:81",
+                     c + ":" + c + "@" + c + ".com:8042", "u@[::1]:81", c + "@[::1]:81"):
+            for pre, tail in (("http://", "/p?q#f"), ("//", ""), ("x://", "/")):
+                for enc in (True, False):
+                    st = case_parse(acc, pre, auth + tail, enc)
+                    if st is not None:
+                        states.add(st)
+    acc.state_count = len(states)
+    acc.sample({"nfkc_unstable_characters": NFKC_UNSTABLE, "backend": impl.backend}, 1)
+    return acc.result()
+
+
 PORT_DIGITS = ["0", "1", "5", "6", "9"]
 PORT_PREFIXES = ["http://h.com:", "//u:p@[::1]:", "x://h:", "https://u@1.2.3.4:"]
 
@@ -253,6 +274,7 @@ def plan(ctx):
             for enc in (True, False):
                 for sh in A.shard_prefixes(A.DELIM, k, 1):
                     tasks.append(("checks.C07", "task_parse", (prefix, enc, k, sh), b, "p"))
+        tasks.append(("checks.C07", "task_nfkc_unstable", (), b, "n"))
         for first in range(len(PORT_DIGITS)):
             for enc in (True, False):
                 tasks.append(("checks.C07", "task_ports", (7 if quick else 9, first, enc), b, "d"))
